@@ -1,3 +1,3 @@
-CONSTANT Design = "asbuilt"
+CONSTANTS Design = "asbuilt" Lis = {0, 3} Plans = "cover"
 SPECIFICATION Spec
 INVARIANTS NoIgnoredCounted
